@@ -1,12 +1,14 @@
 (* C04 - read text equals authored text: entities decoded once, markup stripped.
    Only statements closed by `exact`, each followed by Print Assumptions, plus non-vacuity Examples.
    Models: model/TextRead.v.  Spec: spec/SpecTextRead.v (abstract content, display, serialisers, library layers).
-   html.parser tokenisation and BeautifulSoup/lxml tree building are correspondence-only. *)
+   html.parser tokenisation and BeautifulSoup tree building are correspondence-only.
+   NO theorem here mentions spec display / serialise / ok_lines_a: the statement itself ("what the reader returns is what a
+   consumer displays") is checked by the oracle on the real readers; the theorems are component facts about the reader models. *)
 From Coq Require Import List ZArith Bool.
 From PV Require Import lib.Sx lib.Str lib.Result model.TextNodes model.TextRead.
 From PV Require Import spec.SpecTextXml spec.SpecTextLines spec.SpecTextRead.
 From PV Require Import proofs.TextXmlFacts proofs.TextReadVttFacts proofs.TextReadVttTagFacts proofs.TextReadFacts.
-From PV Require Import proofs.TextReadVttDocFacts.
+From PV Require Import proofs.TextReadVttDocFacts model.GenText.
 Import ListNotations.
 Open Scope Z_scope.
 
@@ -152,4 +154,13 @@ Example C04_example_vtt_document :
                 (BOther [lit "NOTE between"], 1%nat);
                 (BCue (Some (lit "3")) (lit "00:03.000 --> 00:04.000") [ITxt [(99, 0)]], 0%nat)] in
   vtt_parse true doc = [[NText (lit "a"); NBreak; NText (lit "b")]; [NText (lit "c")]].
+Proof. vm_compute. reflexivity. Qed.
+
+(* ---- the tie of the hand-written matchers (voice_sub, other_sub) to the code: the two regular expressions they were
+   written against, as generated from the working tree into model/GenText.v.  Any edit of VOICE_SPAN_PATTERN /
+   OTHER_SPAN_PATTERN makes these two Examples fail to compile, i.e. breaks the proof tie, whatever the streams find. ---- *)
+Example C04_voice_pattern_pinned : GenText.vtt_voice_pattern = lit "<v(\.\w+)* ([^>]*)>".
+Proof. vm_compute. reflexivity. Qed.
+Example C04_other_pattern_pinned :
+  GenText.vtt_other_pattern = lit "</?([cibuv]|ruby|rt|lang|(\d+):(\d{2})(:\d{2})?\.(\d{3}))([ \t.][^>]*)?>".
 Proof. vm_compute. reflexivity. Qed.
